@@ -46,14 +46,15 @@ META = {
             'NOT decided: recovery path of FileView after an I/O error; BufReader transparency. OPEN FINDING (known_findings.json): an ungrouped file whose interleaving the bisection never probes is indexed as grouped.'),
     'C19': ('schema parser: every grammar-level loop terminates with measure len - pos, results bounded by input length, no reachable panic (asql_loops); generator declares 3 + extra columns fields (asql_gen); tool stores the supplied text verbatim / generates from the first line (autosql_choice); writer stores the text and derives the field count from it (write_pre).',
             'NOT decided: tokenizer loops themselves (char_indices on &str is outside Verus; Kani unit asql_tok when enabled is bounded). OPEN FINDING: BED on stdin without --autosql stores the BED3 default.'),
+    'C20': ('Python-binding array fillers (pybigtools/src/lib.rs, private helpers of a cdylib, cut as text on every run): per-base `to_array` / `to_entry_array` proved for all inputs by Verus - every requested base holds the stored value (bigBed: the number of covering entries, entries clamped to the request) or `missing`, index arithmetic never wraps also for requests below 0, errors returned at once; range defaulting and the clipping of the query to the chromosome (py_perbase). Out-of-bounds fill and the float facts the proof assumes (NaN tests, widening) checked bit-precisely by Kani/CBMC on the extracted real text within stated bounds (py_bins: BOUNDED, listed under coverage.bounded, never counted as proved); finalisation/initialisation shape of the binned fillers (py_shape when enabled).',
+            'NOT decided: the binned routines as a whole (to_array_bins, to_entry_array_bins, to_array_zoom, to_entry_array_zoom use a VecDeque of open bins; CBMC ran out of memory/time on them even for 2 intervals and 2 bins - stated in contracts/py_bins/NOTES.md), hence "each bin reports the mean/min/max over its covered bases" is NOT established; pyo3/numpy glue (`ArrayViewMut` is replaced by a slice by a listed substitution); floats in the Verus unit are uninterpreted. Five defects found here were repaired (known_findings.json).'),
 }
 # properties whose enabled units are judged sufficient to claim (kept explicit: a property is
 # not claimed just because a shared unit happens to serve it)
-CLAIM = ['C01', 'C02', 'C03', 'C04', 'C05', 'C06', 'C07', 'C08', 'C09', 'C10', 'C12', 'C13', 'C15', 'C16', 'C17', 'C18', 'C19']
+CLAIM = ['C01', 'C02', 'C03', 'C04', 'C05', 'C06', 'C07', 'C08', 'C09', 'C10', 'C12', 'C13', 'C15', 'C16', 'C17', 'C18', 'C19', 'C20']
 NA = {
     'C11': 'quantifies over schedules of tokio tasks and OS threads; neither Verus (without rewriting the pipeline over its permission types = a model) nor Kani (no threads/async) can express it; the sequential facts it rests on are proved under C01/C12 but do not decide C11',
     'C14': 'quantifies over crash points / fault sequences across the whole pipeline; no per-call contract states "every prefix of the destination\'s operation history"; supporting facts (magic written last, no swallowed io::Error in the synchronous writer units) are proved under C09 but do not decide C14',
-    'C20': 'float-valued bin arithmetic inside a pyo3/numpy cdylib: Verus floats are uninterpreted (NaN-freedom/bin membership not expressible), the crate cannot be built under cargo kani',
 }
 
 
@@ -65,6 +66,11 @@ def main():
         try:
             import kani_lane
             units += [k['name'] for k in kani_lane.units_for(p, 'thorough')]
+        except Exception:
+            pass
+        try:
+            import kani_extract
+            units += [k['name'] for k in kani_extract.units_for(p, 'thorough')]
         except Exception:
             pass
         if units and p in META and p in CLAIM:
@@ -96,7 +102,7 @@ def main():
             'engine': 'check',
             'level_claimed': {'category': 'proof', 'text': text + ' Units: ' + ', '.join(units) + '.', 'design_ref': 'DESIGN.md §6 ' + p},
             'level_note': note + ' Per-run trusted base (external_body / assume_specification / axioms, rewrite hits) is listed in the evidence file.',
-            'technique': 'contract-based deductive verification (Verus on extracted real code' + ('; Kani function contracts' if any(u in ('merge_into', 'rt_items', 'cmp_k') for u in units) else '') + ')',
+            'technique': 'contract-based deductive verification (Verus on extracted real code' + ('; Kani function contracts / complete harnesses' if any(u in ('merge_into', 'rt_items', 'cmp_k') for u in units) else '') + ('; bounded Kani stand-ins labelled bounded' if any(u in ('rt_build', 'asql_tok', 'py_bins') for u in units) else '') + ')',
         })
     for p in props:
         if p not in [c for c, _ in claimed]:
